@@ -94,7 +94,11 @@ def srcs? (toks : List String) : Option (List (Nat × Int)) :=
       | _ => none
 
 def query? (toks : List String) : Option Query :=
-  let ent := (flag? toks "ent").map fun b => if b then 1 else 0
+  -- ent=1: the entity of the rows; 0, 2, 3: names under which nothing is stored (2 and 3 are hostile spellings)
+  let ent : Option Nat := match kv? toks "ent" with
+    | some "1" => some 1
+    | some "0" | some "2" | some "3" => some 0
+    | _ => none
   match kv? toks "kind" with
   | some "ProveIdentity" => some .proveIdentity
   | some "HardwareFingerprint" => some .hardwareFingerprint
